@@ -1037,13 +1037,27 @@ pixman_f_transform_bounds (const struct pixman_f_transform *t,
 
     for (i = 0; i < 4; i++)
     {
+	double vx, vy;
+
 	if (!pixman_f_transform_point (t, &v[i]))
 	    return FALSE;
 
-	x1 = floor (v[i].v[0]);
-	y1 = floor (v[i].v[1]);
-	x2 = ceil (v[i].v[0]);
-	y2 = ceil (v[i].v[1]);
+	vx = v[i].v[0];
+	vy = v[i].v[1];
+
+	/* The box has 16-bit coordinates; refuse corners that don't fit
+	 * (this also catches NaN) instead of storing a wrapped box.
+	 */
+	if (!(vx >= INT16_MIN && vx <= INT16_MAX &&
+	      vy >= INT16_MIN && vy <= INT16_MAX))
+	{
+	    return FALSE;
+	}
+
+	x1 = floor (vx);
+	y1 = floor (vy);
+	x2 = ceil (vx);
+	y2 = ceil (vy);
 
 	if (i == 0)
 	{
